@@ -55,9 +55,9 @@ type Task struct {
 // commits the corresponding model mutation here).
 var OnWriteRelease func(t *Task)
 
-func (t *Task) Done() bool    { return t.state == stDone }
-func (t *Task) Blocked() bool { return t.state == stBlocked }
-func (t *Task) Ready() bool   { return t.state == stReady }
+func (t *Task) Done() bool     { return t.state == stDone }
+func (t *Task) Blocked() bool  { return t.state == stBlocked }
+func (t *Task) Ready() bool    { return t.state == stReady }
 func (t *Task) WaitOn() string { return t.waitOn }
 
 // Sched is the cooperative scheduler. All of its methods are called from the
@@ -358,6 +358,9 @@ func (c *Cond) Wait() {
 	if t == nil {
 		panic("simsync: Cond.Wait outside a scheduled run")
 	}
+	// still holding the lock, about to wait: whoever does not need the lock may run now (a wake-up sent
+	// here, before the ticket is taken, is lost - the code under test has to rule that out by locking)
+	t.park(stReady, "Cond.Wait(enter)", "")
 	my := c.next
 	c.next++
 	c.waiters++
@@ -370,6 +373,9 @@ func (c *Cond) Wait() {
 }
 
 func (c *Cond) Broadcast() {
+	if t := cur(); t != nil {
+		t.park(stReady, "Cond.Broadcast", "")
+	}
 	c.notify = c.next
 	if active != nil {
 		active.wake(c)
